@@ -52,7 +52,7 @@ def handle (toks : List String) : String :=
        let rs := Text.decodeAll bs
        (match Text.unpackActionRunes rs with
         | some a => s!"OK {a}"
-        | none => s!"ERR {hexOfRunes (if Gen.actionUnpackLowersInput then Text.lower rs else rs)}")
+        | none => s!"ERR {hexOfRunes (Text.lower rs)}")
      | none => "BAD-REQUEST")
   | ["uo", h] =>
     (match bytesOfHex h with
@@ -60,7 +60,7 @@ def handle (toks : List String) : String :=
        let rs := Text.decodeAll bs
        (match Text.unpackOperationRunes rs with
         | some o => s!"OK {hexOfString o}"
-        | none => s!"ERR {hexOfRunes (if Gen.operationUnpackLowersInput then Text.lower rs else rs)}")
+        | none => s!"ERR {hexOfRunes (Text.lower rs)}")
      | none => "BAD-REQUEST")
   | ["as", n] =>
     (match n.toNat? with
